@@ -10,7 +10,7 @@ op = {"k":"copy"|"gen", "src": b | "ins":[b..], "dst": b, "tag": n}; buffers are
 from __future__ import annotations
 
 E = 2
-TILES = 14
+TILES = 16
 BIG = f'memref<{E * TILES}xi32, "L3">'
 T1 = f'memref<{E}xi32, "L1">'
 TS = f'memref<{E}xi32, strided<[1], offset: ?>, "L3">'
@@ -92,7 +92,10 @@ def gen_ast(rng):
     alloc_in_loop = rng.random() < 0.08  # the temporaries are allocated inside the loop body (among the index ops)
     lb_shared = rng.random() < 0.15  # the constant that is the lower bound is also used inside the body (when it is 0)
     ring = rng.choice([0, 0, 0, 3, 4])  # the side output goes to a ring of `ring` slots: an arith.remui among the index ops
-    return {"nst": nst, "tmps": ntmp, "skip": skip is not None, "tail": tail, "ring": ring, "post": post, "alias": alias, "lb_shared": lb_shared, "alloc_in_loop": alloc_in_loop and alias is None and post is None and not scratch_views, "scratch_views": scratch_views and alias is None and post is None, "accumulator": accumulator, "const_bounds": rng.random() < 0.75, "stages": stages}
+    same_array = rng.random() < 0.08  # the result of iteration i is stored to tile i+1 of the array the first stage loads from
+    alias_inner = alias is not None and rng.random() < 0.5  # ... the view is taken inside the loop body (among the index ops)
+    init_acc = rng.random() < 0.08 and accumulator is None  # one buffer is written by two stages: initialised, then accumulated into
+    return {"nst": nst, "tmps": ntmp, "skip": skip is not None, "tail": tail, "ring": ring, "post": post, "alias": alias, "lb_shared": lb_shared, "alloc_in_loop": alloc_in_loop and alias is None and post is None and not scratch_views, "scratch_views": scratch_views and alias is None and post is None, "accumulator": accumulator, "same_array": same_array, "alias_inner": alias_inner, "init_acc": init_acc, "const_bounds": rng.random() < 0.75, "stages": stages}
 
 
 TVS = 'memref<' + str(E) + 'xi32, strided<[1], offset: {off}>, "L1">'
@@ -145,7 +148,9 @@ def emit(ast, env=None) -> str:
     if ast.get("accumulator") is not None:
         e(f"    %acc = memref.alloc() {{vsite = 60 : i64}} : {T1}")
         e(f'    "memref.copy"(%G, %acc) {{vtag = 98 : i64}} : ({T1}, {T1}) -> ()')
-    if ast.get("alias") is not None:
+    if ast.get("init_acc"):
+        e(f"    %acc2 = memref.alloc() {{vsite = 61 : i64}} : {T1}")
+    if ast.get("alias") is not None and not ast.get("alias_inner"):
         j = ast["alias"]
         e(f"    %t{j}v = memref.subview %t{j}[0][{E}][1] : {T1} to {TV}")
     if ast.get("skip"):
@@ -165,8 +170,15 @@ def emit(ast, env=None) -> str:
     if ast.get("alloc_in_loop"):
         for t in range(ast["tmps"]):
             e(f"      %t{t} = memref.alloc() {{vsite = {t} : i64}} : {T1}")
+    if ast.get("alias") is not None and ast.get("alias_inner") and not ast.get("alloc_in_loop") and not ast.get("scratch_views"):
+        j = ast["alias"]
+        e(f"      %t{j}v = memref.subview %t{j}[0][{E}][1] : {T1} to {TV}")
     e(f"      %sa = memref.subview %A[%off][{E}][1] : {BIG} to {TS}")
-    e(f"      %so = memref.subview %O[%off][{E}][1] : {BIG} to {TS}")
+    if ast.get("same_array"):
+        e("      %offn = arith.addi %off, %cE : index")
+        e(f"      %so = memref.subview %A[%offn][{E}][1] : {BIG} to {TS}")
+    else:
+        e(f"      %so = memref.subview %O[%off][{E}][1] : {BIG} to {TS}")
     if ast.get("ring"):
         e(f'      %slot = arith.remui %i, %cR : index')
         e("      %off2 = arith.muli %slot, %cE : index")
@@ -177,6 +189,11 @@ def emit(ast, env=None) -> str:
     for si, ops in enumerate(ast["stages"]):
         for o in ops:
             e("      " + op_text(o, ast["tmps"] if views else 0))
+        if ast.get("init_acc"):
+            if si == 0:
+                e("      " + op_text({"k": "copy", "src": "%sa", "dst": "%acc2", "tag": 94}))
+            elif si == 1:
+                e("      " + op_text({"k": "gen", "ins": ["%g"], "dst": "%acc2", "tag": 95, "accum": True}))
         if ast.get("accumulator") is not None:
             k = ast["accumulator"]
             if si == k - 1:
@@ -188,6 +205,8 @@ def emit(ast, env=None) -> str:
     if ast.get("tail"):
         e(f'      "test.op"({ast["tail"]["arg"]}) {{vtag = {ast["tail"]["tag"]} : i64}} : (index) -> ()')
     e("    }")
+    if ast.get("init_acc") and not ast.get("post"):
+        e(f'    "memref.copy"(%acc2, %P) {{vtag = 93 : i64}} : ({T1}, {T1}) -> ()')  # the running result is read behind the loop
     if ast.get("post"):
         e(f'    "memref.copy"({ast["post"]["src"]}, %P) {{vtag = {ast["post"]["tag"]} : i64}} : ({T1}, {T1}) -> ()')
     e("    func.return")
@@ -231,6 +250,9 @@ def shrink_ast(ast):
         yield dict(ast, scratch_views=False)
     if ast.get("accumulator") is not None:
         yield dict(ast, accumulator=None)
+    for flag in ("same_array", "alias_inner", "init_acc"):
+        if ast.get(flag):
+            yield dict(ast, **{flag: False})
     for s_, ops_ in enumerate(ast["stages"]):
         for j_, o_ in enumerate(ops_):
             if o_.get("scalar"):
